@@ -292,6 +292,10 @@ def agree_shapes(tier):
     # AUTH with a reason code but no property length: the lenient front-ends read the property length from
     # the (symbolic) tail, i.e. a symbolic-size property loop -- no verdict (out of memory at 10 GB)
     pick = [sh for sh in pick if not (sh.fam == "v5" and sh.name == "auth_code")]
+    # CONNACK with a boolean property whose value byte is symbolic, on frame ++ tail through three front-ends:
+    # out of memory at 12 GB (measured: 0x25, 0x28, 0x2a; 0x24 decides with 1.4 M steps); C04/C20 cover the value check
+    import re as _re
+    pick = [sh for sh in pick if not (sh.fam == "v5" and _re.match(r"connack_x(25|28|29|2a)$", sh.name))]
     seen = set()
     out = []
     for sh in pick:
@@ -307,6 +311,12 @@ def gen_c06(tier):
         for sh in agree_shapes(tier):
             fn, code, w, unwind, meta = G.emit_agree(sh)
             m.add(fn, code, w, unwind, meta=meta)
+            if sh.b.nonminimal:
+                # the same with the next packet's bytes concrete (PINGREQ): a decoder whose length bookkeeping is
+                # off reads into the tail, which with a symbolic tail is a symbolic-size read (no verdict)
+                fn, code, w, unwind, meta = G.emit_agree(sh, tail_bytes=[0xC0, 0x00])
+                meta["mode"] = "front-end agreement, concrete tail c0 00"
+                m.add(fn, code, w, unwind, meta=meta)
         m.write(srcdir, chunk=8)
     return g
 
@@ -344,12 +354,14 @@ def gen_c11(tier):
                and sh.typ not in ("Puback", "Pubrec", "Pubrel", "Pubcomp", "Unsuback", "Connack")]
         # two-filter SUBSCRIBE read back out of the result: 1.09 M steps, solver out of memory at 8 GB (measured)
         ok3 = [sh for sh in ok3 if not (sh.typ == "Subscribe" and sh.name.count("_") >= 2)]
+        # CONNECT with will + user name + password read back out of the result: solver ERROR / no verdict (measured)
+        ok3 = [sh for sh in ok3 if not (sh.typ == "Connect" and sh.total_len >= 27)]
         if tier == "quick":
             ok3 = [sh for sh in ok3 if sh.name in C11_V3_QUICK]
         for sh in ok3:
             fn, code, w, unwind, meta = G.emit_reenc(sh)
             m.add(fn, code, w, unwind, meta=meta)
-        small = ("Puback", "Pubrec", "Pubrel", "Pubcomp", "Suback", "Unsuback", "Disconnect", "Auth", "Subscribe", "Unsubscribe")
+        small = ("Puback", "Pubrec", "Pubrel", "Pubcomp", "Suback", "Unsuback", "Disconnect", "Auth", "Subscribe", "Unsubscribe", "Connack")
         acc5 = [sh for sh in v5 if not sh.malformed_by_shape]
         if tier == "quick":
             pick = [sh for sh in acc5 if sh.typ in small] + one_per_type(encodable(v5))
@@ -378,7 +390,8 @@ def gen_c14(tier):
                 G.v5_publish(0, 1, 0, [(0x08, 1)]), G.v5_ack("Puback", "long", [(0x1F, 1)], False), G.v5_subscribe((1,)),
                 G.v5_disconnect("long", [(0x11, None)]), G.v5_connect(0x02)]
         if tier == "thorough":
-            cand += [G.v5_connect(0x06, 1, (), 1, 1, [(0x08, 1)]), G.v3_connect("V311", 0xC6), G.v5_auth("long", [(0x15, 1)]), G.v5_codes("Suback", 1, [(0x1F, 1)])]
+            # (the full v3 CONNECT with will + user name + password, 0xC6, gets no verdict: solver ERROR, measured)
+            cand += [G.v5_connect(0x06, 1, (), 1, 1, [(0x08, 1)]), G.v3_connect("V311", 0x06), G.v5_auth("long", [(0x15, 1)]), G.v5_codes("Suback", 1, [(0x1F, 1)])]
         for sh in cand:
             fn, code, w, unwind, meta = G.emit_fault(sh)
             m.add(fn, code, w, unwind, stubs=G.STUBS_FAULT, meta=meta)
